@@ -103,6 +103,13 @@ class Linear:
                         if is_res(body, el, res):
                             m = self.summary(cb, Res("arg", 2 + j), depth + 1)
                             descs.append("passed to closure %s as parameter %d" % (lib.fkey(cb), 2 + j))
+                elif agg is not None and agg["kind"] == "tuple" and cb is None and i == 1 and name.split("::")[-1] in ("call_mut", "call_once", "call"):
+                    # call of an opaque (boxed / dyn) closure: the resource is handed to it exactly once; what it does with it
+                    # is the obligation of whoever built the closure (the closures this crate stores are subjects themselves)
+                    for j, el in enumerate(agg["ops"]):
+                        if is_res(body, el, res):
+                            m = {1}
+                            descs.append("handed to the boxed callback as parameter %d" % (2 + j))
                 elif agg is not None and agg["kind"] == "closure":
                     cbody = self.prog.body(agg["closure"])
                     for j, cap in enumerate(agg["ops"]):
